@@ -363,7 +363,7 @@ ASSUME = ["C14: the production order seen by the parser is explored as the inser
           "C14: grammars are CFG(p,v,t,b) tuples in canonical (sorted, duplicate-free) form whose first production "
           "has head S; grammars with a useless symbol are assumed away (oracle predicate), for c14_parse* also "
           "the grammars that are not LL(1) according to the oracle"]
-TIMEOUT = {"quick": 1500, "thorough": 3000}
+TIMEOUT = {"quick": 1500, "thorough": 7200}
 
 BASE = "CFG(p productions, variables {S,A}, terminals {a,b}, bodies of length <=2)"
 V3 = ("CFG(4 productions, variables {S,A,B}, terminals {a,b}, bodies of length <=2) restricted to the shapes "
